@@ -88,16 +88,15 @@ theorem pmt_fields (data : Bytes) (h : specPmtAccept data) :
   exact ⟨pmtPcrPid_eq data (by have := h.1; omega), by omega, pmtPil_eq data h.1,
     pmtDescriptorBytes_eq data h⟩
 
-/-- an incomplete entry: fewer than 5 bytes, or `ES_info_length` overruns -/
-def Incomplete (leftover : Bytes) : Prop :=
-  leftover.length < 5 ∨ leftover.length < 5 + readBits leftover 28 12
-
+/-- `PmtSection::streams()` run to exhaustion never panics; the yielded entries (with the reserved
+bits as found) re-encode to a prefix of the bytes after the program descriptors, and the leftover is
+empty or an incomplete entry: fewer than 5 bytes, or its `ES_info_length` overruns -/
 theorem pmt_streams_tile (data : Bytes) (h : specPmtAccept data) :
     ∃ (es : List StreamEnc) (leftover : Bytes),
       specStreams (data.drop (4 + readBits data 20 12)) = (es, leftover) ∧
       pmtStreams data = .ok (es.map StreamEnc.info) ∧
       (es.map encodeStream).flatten ++ leftover = data.drop (4 + readBits data 20 12) ∧
-      Incomplete leftover ∧
+      (leftover.length < 5 ∨ leftover.length < 5 + readBits leftover 28 12) ∧
       ∀ e ∈ es,
         e.streamType = readBits (encodeStream e) 0 8 ∧
         e.reserved1 = readBits (encodeStream e) 8 3 ∧
@@ -109,8 +108,7 @@ theorem pmt_streams_tile (data : Bytes) (h : specPmtAccept data) :
     pmtStreams_eq data h, ?_⟩
   obtain ⟨p1, p2, p3⟩ := specStreams_props _ (specStreamBytes data) (Nat.lt_succ_self _)
   refine ⟨p1, ?_, ?_⟩
-  · unfold Incomplete
-    unfold streamFits esInfoLength at p2
+  · unfold streamFits esInfoLength at p2
     omega
   · intro e he
     have wf := p3 e he
@@ -149,12 +147,8 @@ example : encodePat [(7, .network 0x10), (7, .program 1 0x100)] = [0, 0, 0xe0, 0
   decide
 example : PatWf (.network 0x10) ∧ PatWf (.program 1 0x100) := by decide
 
-/-- a PMT body: PCR PID 0x100, no program descriptors, an H.264 stream without descriptors and an
-AAC stream with an ISO-639 descriptor -/
-def pmtExample : Bytes :=
-  [0xe1, 0x00, 0xf0, 0x00,
-   0x1b, 0xe1, 0x00, 0xf0, 0x00,
-   0x0f, 0xe1, 0x01, 0xf0, 0x06, 0x0a, 0x04, 0x65, 0x6e, 0x67, 0x00]
+/-! `pmtExample` (`Ts/Spec/TableSpec.lean`): PCR PID 0x100, no program descriptors, an H.264 stream
+without descriptors and an AAC stream with an ISO-639 descriptor -/
 
 example : specPmtAccept pmtExample := by decide
 example : pmtExample = encodePmt 7 0x100 15 []
